@@ -95,6 +95,8 @@ func C07(r *vf.Run) {
 				var hist []string
 				// stretches of the program may be emitted into clones that are appended back (fragments
 				// assembled separately); a clone may carry nothing but what the assembler was told to assume
+				var pending, defined []string
+				nlabel := 0
 				var stack []*asm.Emitter
 				push := func() {
 					stack = append(stack, e)
@@ -107,6 +109,19 @@ func C07(r *vf.Run) {
 					stack = stack[:len(stack)-1]
 					if e.Len() == 0 {
 						cells["clone:appended-without-code"]++
+					}
+					if len(pending) > 0 && g.Intn(3) == 0 {
+						// a second candidate cloned from the same state of the original, which also branches to
+						// the labels still pending, and is then dropped in favour of this one
+						decoy := p.Clone(make([]byte, 512))
+						vf.Try(func() {
+							decoy.NOP()
+							for _, name := range pending {
+								decoy.BNE(name)
+								decoy.NOP()
+							}
+						})
+						cells["clone:dropped-sibling"]++
 					}
 					p.Append(e)
 					e = p
@@ -121,8 +136,6 @@ func C07(r *vf.Run) {
 				}
 				trail := fmt.Sprintf("%x", init>>4)
 				ninstr := 1 + g.Intn(60)
-				var pending, defined []string
-				nlabel := 0
 				for len(starts) < ninstr {
 					cur := byte(e.Flags())
 					switch k := g.Intn(12); {
@@ -147,13 +160,19 @@ func C07(r *vf.Run) {
 							e.Label(name)
 							defined = append(defined, name)
 							hist = append(hist, fmt.Sprintf("Label(%q)", name))
-						case 1: // forward reference: the label is defined later
+						case 1: // forward reference: the label is defined later (sometimes one that is already awaited)
 							nlabel++
 							name := fmt.Sprintf("f%d", nlabel)
+							again := len(pending) > 0 && g.Intn(3) == 0
+							if again {
+								name = pending[g.Intn(len(pending))]
+							}
 							m := emByName[condBranches[g.Intn(len(condBranches))]]
 							starts = append(starts, e.PC())
 							callMethod(e, m, 0, name)
-							pending = append(pending, name)
+							if !again {
+								pending = append(pending, name)
+							}
 							hist = append(hist, fmt.Sprintf("%s(%q)", m.Name, name))
 						default:
 							if len(pending) > 0 && g.Bool() {
@@ -243,6 +262,15 @@ func C07(r *vf.Run) {
 				}
 				for len(stack) > 0 {
 					pop()
+				}
+				// a program with labels is finalized before it runs (an out-of-range branch makes Finalize
+				// report an error; the branches are never taken here, so the program still runs)
+				if nlabel > 0 {
+					if pan := vf.Try(func() { _ = e.Finalize() }); pan != nil {
+						r.Fail("finalize-panics", fmt.Sprintf("Finalize panicked: %v", pan), hist)
+						continue
+					}
+					cells["program-finalized"]++
 				}
 				end := e.PC()
 				code := append([]byte(nil), e.Bytes()...)
